@@ -104,7 +104,10 @@ class LineParser:
         """
         lineno = 0
         for lineno, line in enumerate(file_handle, 1):
-            line, _ = split_comments(line, self.COMMENT_CHAR)
+            if self.COMMENT_CHAR is None:
+                line = line.strip()
+            else:
+                line, _ = split_comments(line, self.COMMENT_CHAR)
             if not line:
                 continue
             result = self.dispatch(line)(line, lineno)
